@@ -40,6 +40,8 @@ func init() {
 		{WL: "opsim", Cfg: "prop=C17,stopk=300", Quick: 300, Thor: 8000},
 		{WL: "opsim", Cfg: "prop=C17,t=T1", Quick: 100, Thor: 3000},
 		{WL: "opsim", Cfg: "prop=C17,stopat=wait", Quick: 300, Thor: 8000},
+		// the stop request races with start-up (queues still being created, hooks being enabled)
+		{WL: "opsim", Cfg: "prop=C17,stopduring=start,stopk=40", Quick: 300, Thor: 8000},
 	}
 	plans["C18"] = []Part{
 		{WL: "opsim", Cfg: "prop=C18", Quick: 400, Thor: 10000},
@@ -487,6 +489,7 @@ func runOpsimWL(e *Env) {
 	}
 
 	nsRemoval := e.CfgIs("nsdel", "1")
+	stopDuringStart := e.CfgIs("stopduring", "start")
 	mutDone, settled, settling := false, false, false
 	shutdownReturned, shutdownCalled, shutdownHung := false, false, false
 	var shutdownCalledAt, shutdownReturnedAt time.Duration
@@ -544,21 +547,8 @@ func runOpsimWL(e *Env) {
 				mutDone = true
 			})
 		}
-		early := wl.Bias(1, 2)
-		if early {
-			startMut() // history runs during start-up too
-		}
-		o.Boot(true)
-		r.bootSeq = e.Seq()
-		s.Arm()
-		if o.BootErr != nil {
-			mutDone = true
-			return
-		}
-		if !early {
-			startMut()
-		}
-		if opts.Shutdown {
+		var startStopper func()
+		startStopper = func() {
 			k := fl.Choose(e.CfgInt("stopk", 2500))
 			stopAtWait := e.CfgIs("stopat", "wait")
 			simrt.GoNamed("stopper", func() {
@@ -599,15 +589,39 @@ func runOpsimWL(e *Env) {
 						simrt.Count("probe:stop-placed-near-end-of-back-off")
 					}
 				} else {
-					simrt.BlockUntil("stop-point", func() bool { return s.Steps >= k })
+					simrt.BlockUntil("stop-point", func() bool { return s.Steps >= k && o.Op != nil })
 				}
 				simrt.Count("fault:shutdown-requested")
+				if !o.Booted {
+					simrt.Count("probe:stop-during-start-up")
+				}
 				shutdownCalledAt = e.Since()
 				shutdownCalled = true
 				o.Op.Shutdown()
 				shutdownReturnedAt = e.Since()
 				shutdownReturned = true
 			})
+		}
+		if opts.Shutdown && stopDuringStart {
+			// the stop request may arrive while ShellOperator.Start() is still creating queues and enabling hooks
+			startStopper()
+		}
+		early := wl.Bias(1, 2)
+		if early {
+			startMut() // history runs during start-up too
+		}
+		o.Boot(true)
+		r.bootSeq = e.Seq()
+		s.Arm()
+		if o.BootErr != nil {
+			mutDone = true
+			return
+		}
+		if !early {
+			startMut()
+		}
+		if opts.Shutdown && !stopDuringStart {
+			startStopper()
 		}
 		if opts.Faults {
 			simrt.GoNamed("faulter", func() {
